@@ -97,22 +97,22 @@ ASSUMPTIONS = [
     "orphaned BUILT input adopted): evaluated on every real E2 rebuild trace, not derived from a model of the executor",
     "on Graph.st the cone is closed under cone membership (an over-approximation of the property's clauses about executed "
     "steps); the statement about EXECUTED steps with absorption by identical rebuilds is proved on the engine model "
-    "(C04_exec_cone_*), which has no optional steps, no plan steps (re-planning is the abstract P -> P') and one schedule",
-    "C04_exec_cone_amend_partial assumes K_a (no stale success over declared ++ remembered amended inputs) of the state "
-    "the rebuild starts from; not derived for all histories of the gated engine",
+    "(C04_exec_cone_*), which has no optional steps and no plan steps (re-planning is the abstract P -> P')",
+    "the amend theorems (C04_exec_cone_amend_full: all histories of worlds, fixed plan) speak of one pass in project order; "
+    "schedules (C04_exec_cone_all_schedules) are sequential lists of atomic dispatch decisions",
 ]
 
 SETTINGS = {
     # tier: (E2 cases, E3 restart cases, E3 watch cases, max_phases, processes); ENV_MULTI_CASES below
     "quick": (22, 60, 60, 3, 6),
-    "thorough": (120, 1200, 1200, 5, 8),
+    "thorough": (120, 1000, 1000, 5, 8),
 }
 NGLOB_CASES = {"quick": 40, "thorough": 600}
 # directed E3 restart cases: steps tracking 2-4 environment variables, several changed at once, a subset reverted
-ENV_MULTI_CASES = {"quick": 24, "thorough": 400}
+ENV_MULTI_CASES = {"quick": 24, "thorough": 300}
 # directed E3 cases (per flavour): an edit absorbed by an identically rebuilt output, downstream steps that track
 # variables the director injects; a plan rerun that recycles a nested sub-plan
-ABSORBED_CASES = {"quick": 12, "thorough": 200}
+ABSORBED_CASES = {"quick": 12, "thorough": 160}
 # 4 of 7 E3 cases carry several glob registrations that share one pattern string (c04_e3.add_shared_globs)
 SHARED_GLOBS = [None, "one_plan", None, "static_and_glob", "two_steps", None, "one_plan+static_and_glob"]
 
